@@ -406,6 +406,18 @@ def compare_string(A, hrp, s, with_helper=True, with_encode=True):
             n += 1
             if st == "exc" or back != s.lower():
                 return BAD("segwit-encode", "encode(%r, %d, %s) == %r" % (hrp, r_ver, r_prog.hex(), s.lower()), show(st, back), n=n, clause="segwit-encode"), None, n, checked
+        # the same valid address asked for under RELATED human-readable parts (a prefix, a suffix, the part before an inner '1',
+        # one character more): it is an address of its own hrp only
+        alts = set([r_hrp + "1", r_hrp + "x", r_hrp[:-1], r_hrp[1:]])
+        if "1" in r_hrp:
+            alts.update([r_hrp.split("1")[0], r_hrp.rsplit("1", 1)[0]])
+        for other in sorted(alts):
+            if other and other != r_hrp:
+                st, got = call(A.bech32m.decode, other, s)
+                n += 1
+                if st == "exc" or tuple(got) != (None, None):
+                    return BAD("segwit-invalid-accepted", "%r is an address of hrp %r: decode(%r, .) = (None, None)" % (s[:80], r_hrp, other),
+                               show(st, got), n=n, clause="segwit-foreign-hrp-accepted"), None, n, checked
     # --- cached helper used by address parsing
     if with_helper:
         def helper():
